@@ -405,6 +405,35 @@ def long_cases(tier):
     yield mk([("aa", "a")], ["a" * 65537, "a" * 4097], it=True)
 
 
+def gen_registry_case(rng):
+    """two REPP objects over shared module OBJECTS (ids): the registries as key -> id"""
+    keys = ["x", "y", "z"]
+    def reg():
+        ks = rng.sample(keys, rng.randrange(1, 4))
+        return [[cps(k), rng.randrange(3)] for k in ks]
+    d1 = reg()
+    r = rng.random()
+    d2 = copy.deepcopy(d1) if r < 0.4 else (rng.sample(d1, len(d1)) if r < 0.55 else reg())
+    return {"kind": "registry", "d1": d1, "d2": d2,
+            "probes": [[], [cps("x")], [cps("y")], [cps("z")], [cps("x"), cps("y")], [cps("z"), cps("x"), cps("y")]]}
+
+
+def run_registry(case):
+    with warnings.catch_warnings():
+        warnings.simplefilter("ignore")
+        mods = [REPP.from_string("!$\t%d" % i) for i in range(3)]
+
+        def mk(d):
+            return REPP.from_string("\n".join(">" + uncps(k) for k, _ in d), modules={uncps(k): mods[i] for k, i in d})
+
+        def look(r):
+            return [[int(ch) for ch in r.apply("a", active=[uncps(n) for n in a]).string[1:]] for a in case["probes"]]
+        r1 = mk(case["d1"])
+        before = look(r1)
+        mk(case["d2"])
+        return {"before": before, "after": look(r1)}
+
+
 def gen_case(rng, mode=None, tok=False):
     r = rng.random()
     masks = []
@@ -592,6 +621,20 @@ def build(case, tmpdir, want_loaded=None, ctx=None):
                         return REPP.from_string("\n".join(rd.main), name="main",
                                                 modules=(ms if wrap is None else wrap(ms)), active=active)
                 ctx["fresh"] = fresh_string
+
+                def pair_string(d1, d2):
+                    """two REPP objects built from the SAME modules dict"""
+                    with warnings.catch_warnings():
+                        warnings.simplefilter("ignore")
+                        ms = {}
+                        for name, lines in rd.modules:
+                            ms[name] = REPP.from_string("\n".join(lines), name=name, modules=ms)
+                        keys = sorted(ms)
+                        a = REPP.from_string("\n".join(rd.main), name="main", modules=ms, active=d1)
+                        b = REPP.from_string("\n".join(rd.main), name="main", modules=ms, active=d2)
+                        assert sorted(ms) == keys
+                        return a, b
+                ctx["pair"] = pair_string
             mods = {}
             done = []
             for name, lines in rd.modules:
@@ -622,6 +665,18 @@ def build(case, tmpdir, want_loaded=None, ctx=None):
                 with warnings.catch_warnings():
                     warnings.simplefilter("ignore")
                     return REPP.from_file(path, active=active, modules=(None if wrap is None else wrap({})))
+            def pair_file(d1, d2):
+                """two REPP objects loaded from the same files with the SAME (initially empty) modules dict: the
+                modules one of them loads implicitly must not reach the other through the caller's dict"""
+                with warnings.catch_warnings():
+                    warnings.simplefilter("ignore")
+                    shared = {}
+                    a = REPP.from_file(path, modules=shared, active=d1)
+                    b = REPP.from_file(path, modules=shared, active=d2)
+                    if shared:
+                        raise AssertionError("the caller's modules dict was changed: %r" % sorted(shared))
+                    return a, b
+            ctx.update(pair=pair_file)
             ctx.update(fresh=fresh_file, dir=d, path=path,
                        shared=[ln for ln in rd.main if ln.startswith("<") or (ln.startswith(">") and not ln[1:].isdigit())])
         return r
@@ -1361,6 +1416,9 @@ def observe(case, tmpdir, want_tokens=True, battery=True, session=False):
                 obs["session"] = dict(script, answers=answers)
             except (Timeout, Diverges):
                 pass
+            except AssertionError as e:
+                obs["purity"].append({"clause": "two REPP objects built from the same modules dict are not independent",
+                                      "detail": str(e)[:300]})
     return obs
 
 
@@ -1386,17 +1444,22 @@ def session_script(case):
              {"c": "deactivate", "n": cps(x)}, tr(s1, [y, x, y], False), {"c": "activate", "n": cps(x)},
              {"c": "activate", "n": cps(x)}, {"c": "deactivate", "n": cps(y)}, {"c": "deactivate", "n": cps(y)},
              tr(s0, None, True), ap(s1, []), {"c": "deactivate", "n": cps("nosuch")}, ap(s1, None)]
-    return {"defaults": [cps(n) for n in d0], "calls": calls}
+    # a SECOND object built from the same text and the same modules dict, its calls interleaved ("obj": 1)
+    second = [dict({"c": "activate", "n": cps(x)}, obj=1), dict(ap(s0, None), obj=1), dict({"c": "deactivate", "n": cps(y)}, obj=1),
+              dict(tr(s1, None, False), obj=1)]
+    calls = calls[:2] + second[:2] + calls[2:9] + second[2:] + calls[9:]
+    return {"defaults": [cps(n) for n in d0], "defaults2": [cps(y)], "calls": calls}
 
 
 def run_session(case, ctx, script, rule_id, mask_id, obs, engseen):
     """the script on ONE real object; the engine answers met under every resolved active set are added to
     obs["eng"] / obs["meng"] (read from a second object so that the observed one sees only the script)"""
-    D = set(uncps(n) for n in script["defaults"])
-    o = ctx["fresh"](active=sorted(D))
+    Ds = [set(uncps(n) for n in script["defaults"]), set(uncps(n) for n in script.get("defaults2", []))]
+    objs = ctx["pair"](sorted(Ds[0]), sorted(Ds[1]))
     probe = ctx["fresh"]()
     answers = []
     for c in script["calls"]:
+        o, D = objs[c.get("obj", 0)], Ds[c.get("obj", 0)]
         if c["c"] == "activate":
             o.activate(uncps(c["n"]))
             D.add(uncps(c["n"]))
@@ -1484,19 +1547,47 @@ def terminates(case):
         return True
 
 
-def check_matches(s, ms, ngroups):
-    """the parameter assumptions on the engine's answers"""
-    pos = 0
+def check_matches(s, ms, ngroups, pat=None):
+    """the parameter assumptions on the engine's answers (Engine.lean `findIterOk`), and — with the pattern —
+    the documented semantics of finditer/sub restated with `match` at single positions: no position between
+    two listed matches (from the end of the previous one on) admits a match, i.e. the list is the leftmost
+    non-overlapping one INCLUDING an empty match that starts where a non-empty one ended
+    (re.sub('a*', '-', 'baac') == '-b--c-')"""
+    pos, prev_empty = 0, False
     for m in ms:
         if not (pos <= m["s"] <= m["e"] <= len(s)):
             return "match list not ordered / not inside the string"
+        if prev_empty and m["s"] == pos and m["e"] == pos:
+            return "two empty matches at one position"
         if len(m["g"]) != ngroups:
             return "group count differs"
         for g in m["g"]:
             if g is not None and not (m["s"] <= g[0] <= g[1] <= m["e"]):
                 return "group span outside its match"
-        pos = m["e"]
+        pos, prev_empty = m["e"], m["s"] == m["e"]
+    if pat is not None:
+        rx = re.compile(pat)
+        pos, prev_empty = 0, False
+        for m in ms + [{"s": len(s) + 1, "e": len(s) + 1}]:
+            for p in range(pos, min(m["s"], len(s) + 1)):
+                x = rx.match(s, p)
+                if x is None:
+                    continue
+                if p == pos and prev_empty and x.end() == p:
+                    continue        # an empty match here again is not allowed (a non-empty alternative is not examined)
+                return "the pattern matches at %d but the list has no match starting there" % p
+            pos, prev_empty = m["e"], m["s"] == m["e"]
     return None
+
+
+def adjacent_empty(ms):
+    """empty matches that start where the previous non-empty match ended (Engine.lean `adjacentEmpty`)"""
+    n, prev = 0, 0
+    for m in ms:
+        if m["s"] == m["e"] and m["s"] == prev and prev > 0:
+            n += 1
+        prev = m["e"]
+    return n
 
 
 # ----------------------------------------------------------------------------------------------
@@ -1895,6 +1986,8 @@ class C13(Check):
         yield make_case([{"k": "rule", "id": 0}], [{"pat": "(a)(b)", "tpl": r"\1\3"}], [], ["ab"], kind="loaderr")
         if self.loader_stream:
             yield from long_cases(tier)
+            for _ in range(40 if tier == "quick" else 400):
+                yield gen_registry_case(rng)
         if self.loader_stream:
             k = 0
             while k < n // 4:
@@ -1951,6 +2044,8 @@ class C13(Check):
             return self.impl_render(case)
         if case["kind"] == "long":
             return self.impl_long(case)
+        if case["kind"] == "registry":
+            return run_registry(case)
         obs = self.full(case)
         self.model_request(case)          # built now, while the observation is at hand
         if "err" in obs:
@@ -2072,6 +2167,8 @@ class C13(Check):
     def build_request(self, case):
         if case["kind"] == "long":
             return None
+        if case["kind"] == "registry":
+            return {"op": "registry", "d1": case["d1"], "d2": case["d2"], "probes": case["probes"]}
         if case["kind"] == "load":
             req = load_request([uncps(x) for x in case["lines"]], {fn: [uncps(x) for x in ls] for fn, ls in case["files"].items()},
                                case["mode"] == "file", case["pre"], eol=case.get("eol"))
@@ -2138,14 +2235,23 @@ class C13(Check):
         if "session" in obs and self.pid == "C13":
             req["calls"] = obs["session"]["calls"]
             req["defaults"] = obs["session"]["defaults"]
+            req["defaults2"] = obs["session"].get("defaults2", [])
         return req
 
     def model_compare(self, case, expected, answer):
+        if case["kind"] == "registry":
+            return None if answer == expected else {"expected_from_impl": expected, "model": answer}
         if case["kind"] == "load":
             if expected["loaded"].get("err") == "re.error":
                 self.note_skip("loader case: re rejects an expression (compiling is outside the loader model)")
                 return None
             got = prune_loaded(answer, case["pre"]) if isinstance(answer, dict) else answer
+            if isinstance(answer, dict) and "spliced" in answer and answer.get("err") != "fuel":
+                sp = prune_loaded(answer["spliced"], case["pre"])
+                main = {k: v for k, v in got.items() if k not in ("spliced", "splicefree")} if isinstance(got, dict) else got
+                if sp != main and sp.get("err") != "fuel":
+                    return {"splice": "model: the fully spliced text loads differently", "spliced": sp, "model": main}
+                got = main
             return None if got == expected["loaded"] else {"expected_from_impl": expected["loaded"], "model": got}
         if case["kind"] == "render":
             if not isinstance(answer, dict) or answer.get("lines") != expected["lines"]:
@@ -2157,6 +2263,12 @@ class C13(Check):
             got = prune_loaded(answer.get("loaded"), case["pre"])
             return None if got == expected["loaded"] else {"expected_from_impl": expected["loaded"], "model": got}
         if "err" not in expected and isinstance(answer, dict) and "runs" in answer:
+            if answer.get("engok") is False:
+                return {"engine": "a match list sent to the model fails Engine.findIterOk (parameter assumption)"}
+            if "adjacent_empty" in answer and self.pid == "C13":
+                want = sum(adjacent_empty(e["ms"]) for e in self.full(case)["eng"])
+                if answer["adjacent_empty"] != want:
+                    return {"engine": "adjacent empty matches", "expected_from_impl": want, "model": answer["adjacent_empty"]}
             if answer.get("treeagree") is False:
                 return {"link": "the operation tree linked from the loaded text differs from the harness's tree"}
             obs = self.full(case)
@@ -2234,6 +2346,16 @@ class C13(Check):
             return self.oracle_load(case, res)
         if case["kind"] == "long":
             return self.oracle_long(case, res)
+        if case["kind"] == "registry":
+            # the property covers: the same dict with the same keys, or no module object in common; one module
+            # object under DIFFERENT keys in two REPPs is object sharing by the caller (observed: it is renamed)
+            names = {}
+            for k, i in case["d1"] + case["d2"]:
+                names.setdefault(i, set()).add(json.dumps(k))
+            once = all(len(v) == 1 for v in names.values())          # every module object is named once
+            if once and res["after"] != res["before"]:
+                fail("two REPP objects built from the same modules dict are not independent", repr(res))
+            return fails
         if case["kind"] == "render":
             want = render_expected(case)
             if want is not None and res["loaded"] != want and res["loaded"].get("err") != "re.error":
@@ -2268,7 +2390,7 @@ class C13(Check):
                  repr((obs["tree"], expected_tree(case, case["prog"]))))
         ngroups = {i: (ld or {}).get("ngroups") for i, ld in enumerate(obs["load"])}
         for ent in obs["eng"]:
-            why = check_matches(uncps(ent["s"]), ent["ms"], ngroups[ent["id"]])
+            why = check_matches(uncps(ent["s"]), ent["ms"], ngroups[ent["id"]], case["rules"][ent["id"]]["pat"])
             if why:
                 fail("parameter assumption on the regex engine violated", repr((why, ent)))
         for inp, run in zip(case["inputs"], obs["runs"]):
@@ -2431,6 +2553,21 @@ class C13(Check):
                               "detail": repr((res["loaded"], plain))[:900]})
         if case["mode"] != "file":
             return fails
+        # EVERY include spliced in place, recursively (includes inside groups, inside included files): one flat text
+        def splice_all(ls, depth=8):
+            out = []
+            for ln in ls:
+                if ln.startswith("<") and ln[1:].rstrip() in files and depth > 0:
+                    out.extend(splice_all(files[ln[1:].rstrip()], depth - 1))
+                else:
+                    out.append(ln)
+            return out
+        flat = splice_all(lines)
+        if flat != lines and case.get("eol") is None:
+            got = self.real_load(flat, {fn: splice_all(ls) for fn, ls in files.items()}, "file", [])
+            if got != res["loaded"] and "fuel" not in (got.get("err"), res["loaded"].get("err")):
+                fails.append({"clause": "including files differs from splicing ALL included lines in place (every depth)",
+                              "detail": repr((flat, res["loaded"], got))[:900]})
         # splice the first include line of the main text, and the first one inside any file
         targets = [("main", lines)] + sorted(files.items())
         for label, ls in targets:
@@ -2452,6 +2589,9 @@ class C13(Check):
         def inc(k, n=1):
             counters[k] = counters.get(k, 0) + n
         inc("kind:" + case["kind"])
+        if case["kind"] == "registry":
+            inc("registry:" + ("unchanged" if res.get("after") == res.get("before") else "renamed"))
+            return
         if case["kind"] == "long":
             for inp in case["inputs"]:
                 inc("long:inputs")
@@ -2509,6 +2649,7 @@ class C13(Check):
                     mask = st["mask"]
         for ent in obs["eng"]:
             inc("rule_applications")
+            inc("matches:empty_after_nonempty", adjacent_empty(ent["ms"]))
             for m in ent["ms"]:
                 inc("matches")
                 if m["s"] == m["e"]:
@@ -2537,6 +2678,8 @@ class C13(Check):
             return json.dumps(case, sort_keys=True) if case["nodes"] else None
         if case["kind"] == "long":
             return json.dumps(case["rules"]) + str([len(i) for i in case["inputs"]])
+        if case["kind"] == "registry":
+            return json.dumps(case, sort_keys=True)
         if not isinstance(res, dict) or "runs" not in res:
             return None
         obs = self.full(case)
